@@ -4,7 +4,13 @@
    hash map breaks `C19.containers_pinned` / `C19.walks_pinned` and has to be classified - modelled with an
    explicit enumeration order and proved order-free, or reported - before it is added here).
    Line numbers and the four interpreted consumers (put_balance, top_amount, collapse_posts::totals_map,
-   posts_commodities_iterator::reset) are deliberately not part of the pin. -/
+   posts_commodities_iterator::reset) are deliberately not part of the pin: their form is read into the flags of
+   Gen/OrderSources.lean and Props/C19.lean carries the obligations that it is the repaired one.
+   State of the four at the time of this pin (after 36e5f68, c1ef985, c8b647e, fc0aedd):
+     filters.h collapse_posts::totals_map   std::map<account_t *, value_t, account_name_less>  (class `compared`, by fullname)
+     iterators.cc reset(): `commodities`     std::vector<commodity_t *>, first-appearance order  (the std::set<commodity_t*> is gone)
+     balance.cc put_balance                  bal.map_sorted_amounts(…)                           (no walk of the hash map)
+     report.cc top_amount                    first of sorted_amounts                             (no `amounts.begin()`) -/
 namespace Ledger.Pinned
 
 /-- every container, classified: who iterates it and why the order cannot (or can) reach output.
